@@ -7,7 +7,7 @@
 //! composition.
 //!
 //! usage: gaprobe <script> <out>;  script lines:
-//!   run idx= threads=<1..4> reps= nblocks= ops= seed= zeroed=<pct> realloc=<pct> xfree=0|1
+//!   run idx= threads=<1..8> reps= nblocks= ops= seed= zeroed=<pct> realloc=<pct> xfree=0|1 burst=0|1
 //!       sizes=<s,s,..> aligns=<a,a,..>
 //! Workers 0..threads-1 (tiny-std threads created once at start-up) each run, per repetition:
 //!   A allocate nblocks blocks (alloc / alloc_zeroed), B `ops` times: realloc a block or free it and
@@ -46,7 +46,7 @@ impl<T> Racy<T> {
     }
 }
 
-const NW: usize = 4;
+const NW: usize = 8;
 const MAXB: usize = 256;
 const LOGSZ: usize = 1 << 18;
 
@@ -168,12 +168,13 @@ fn pat(id: u32, j: usize) -> u8 {
     (id.wrapping_mul(131).wrapping_add((j as u32).wrapping_mul(7)).wrapping_add((j >> 8) as u32) as u8) | 1
 }
 
-const FULL: usize = 1 << 20;
-const STAMP_EVERY: usize = 1 << 16;
+const FULL: usize = 1 << 14;
+const STAMP_EVERY: usize = 1 << 12;
 const STAMP: usize = 64;
+const EDGE: usize = 1024;
 
-/// the byte ranges of a block that carry the pattern: everything up to 1 MiB, for larger blocks
-/// the first and last 4 KiB and a 64-byte stamp every 64 KiB
+/// the byte ranges of a block that carry the pattern: everything up to 16 KiB, for larger blocks
+/// the first and last 1 KiB and a 64-byte stamp every 4 KiB
 fn for_ranges(from: usize, size: usize, f: &mut dyn FnMut(usize, usize)) {
     if size <= FULL {
         if from < size {
@@ -187,13 +188,13 @@ fn for_ranges(from: usize, size: usize, f: &mut dyn FnMut(usize, usize)) {
             f(lo, hi);
         }
     };
-    emit(0, 4096);
+    emit(0, EDGE);
     let mut o = STAMP_EVERY;
-    while o + STAMP < size - 4096 {
+    while o + STAMP < size - EDGE {
         emit(o, o + STAMP);
         o += STAMP_EVERY;
     }
-    emit(size - 4096, size);
+    emit(size - EDGE, size);
 }
 
 unsafe fn fill(b: &Blk, from: usize) {
@@ -256,6 +257,9 @@ struct Plan {
     zeroed: u32,
     realloc: u32,
     xfree: bool,
+    /// phase D as a burst: worker 0 keeps the allocator busy (zeroed allocations of ~200 KB, freed at
+    /// once) while every other worker hands its victim's blocks back in one tight loop of dealloc calls
+    burst: bool,
     sizes: [usize; 64],
     nsizes: usize,
     aligns: [usize; 16],
@@ -272,6 +276,7 @@ static PLAN: Racy<Plan> = Racy::new(Plan {
     zeroed: 0,
     realloc: 0,
     xfree: false,
+    burst: false,
     sizes: [16; 64],
     nsizes: 1,
     aligns: [1; 16],
@@ -280,6 +285,8 @@ static PLAN: Racy<Plan> = Racy::new(Plan {
 static GEN: AtomicU32 = AtomicU32::new(0);
 static TABLES: [Racy<[Blk; MAXB]>; NW] = [const { Racy::new([NOBLK; MAXB]) }; NW];
 static READY: AtomicU32 = AtomicU32::new(0);
+/// spin rendezvous of the freeing workers of a burst (no system call: they must reach dealloc together)
+static BURST_ARRIVE: AtomicU32 = AtomicU32::new(0);
 
 // reusable barrier for `n` parties
 static BAR_COUNT: AtomicU32 = AtomicU32::new(0);
@@ -440,10 +447,49 @@ fn worker(w: usize) {
             unsafe {
                 let victim = if p.xfree { (w + 1) % p.threads } else { w };
                 let vt = TABLES[victim].get();
-                for s in 0..p.nblocks {
-                    let b = vt[s];
-                    do_free(w, &mut seq, &b);
-                    vt[s] = NOBLK;
+                if p.burst && p.threads > 2 && w == 0 {
+                    // keep somebody inside the allocator while the others free
+                    for _ in 0..(p.nblocks * 6) {
+                        let b = do_alloc(w, &mut seq, 200_000, 16, true);
+                        do_free(w, &mut seq, &b);
+                    }
+                }
+                if p.burst && p.threads > 2 && w != 0 {
+                    // verify and draw the tickets first (a ticket precedes its dealloc), then give all
+                    // blocks back in one tight loop, log afterwards
+                    let mut oks = [true; MAXB];
+                    let mut gs = [0u64; MAXB];
+                    for s in 0..p.nblocks {
+                        if !vt[s].ptr.is_null() {
+                            oks[s] = verify(&vt[s], vt[s].size);
+                            gs[s] = ticket();
+                        }
+                    }
+                    let crowd = p.threads as u32 - 1;
+                    for s in 0..p.nblocks {
+                        // all freeing workers leave this rendezvous within a few nanoseconds of each other
+                        let target = (BURST_ARRIVE.fetch_add(1, Ordering::SeqCst) / crowd + 1) * crowd;
+                        let mut spins = 0u32;
+                        while BURST_ARRIVE.load(Ordering::SeqCst) < target && spins < 20_000_000 {
+                            core::hint::spin_loop();
+                            spins += 1;
+                        }
+                        if !vt[s].ptr.is_null() {
+                            dealloc(vt[s].ptr, Layout::from_size_align_unchecked(vt[s].size, vt[s].align));
+                        }
+                    }
+                    for s in 0..p.nblocks {
+                        if !vt[s].ptr.is_null() {
+                            log_op(w, &mut seq, "free", gs[s], gs[s], &vt[s], oks[s], true, true);
+                        }
+                        vt[s] = NOBLK;
+                    }
+                } else {
+                    for s in 0..p.nblocks {
+                        let b = vt[s];
+                        do_free(w, &mut seq, &b);
+                        vt[s] = NOBLK;
+                    }
                 }
                 LOGS[w].get().flush();
             }
@@ -494,6 +540,7 @@ fn run_plan(line: &str) {
     p.zeroed = num(line, "zeroed", 30) as u32;
     p.realloc = num(line, "realloc", 30) as u32;
     p.xfree = num(line, "xfree", 0) == 1;
+    p.burst = num(line, "burst", 0) == 1;
     p.nsizes = 0;
     for v in arg(line, "sizes").unwrap_or("16").split(',') {
         if let Ok(x) = v.parse::<usize>() {
@@ -520,6 +567,7 @@ fn run_plan(line: &str) {
     let parties = p.threads as u32 + 1;
     let reps = p.reps;
     SAMPLE_EVERY_CALL.store((p.threads == 1) as u32, Ordering::SeqCst);
+    BURST_ARRIVE.store(0, Ordering::SeqCst);
     VM_HIGH.store(0, Ordering::SeqCst);
     GEN.fetch_add(1, Ordering::SeqCst);
     sys::futex_wake_shared(GEN.as_ptr() as usize, 64);
